@@ -1,10 +1,308 @@
+// Projection of the compiled module (sysl pb --mode json) to the abstract module of Cmds/Model.v and
+// printing of one Gallina case per model: (module, renderer installed?, [(command, observed class)]).
 package main
 
-import "verifharness/common"
+import (
+	"encoding/json"
+	"fmt"
+	"os"
+	"os/exec"
+	"path/filepath"
+	"sort"
+	"strings"
+
+	"verifharness/common"
+)
 
 type cmdModel struct{}
-type caseWriter struct{ c *common.Ctx }
 
-func newCaseWriter(c *common.Ctx) *caseWriter { return &caseWriter{c} }
-func (w *caseWriter) addModel(m *SModel, text string, runs []*Run, obs map[*Run]Obs) {}
-func (w *caseWriter) close()                                                          {}
+type caseWriter struct {
+	c    *common.Ctx
+	cs   *common.Cases
+	rend bool
+}
+
+func newCaseWriter(c *common.Ctx) *caseWriter {
+	_, err := exec.LookPath("google-chrome")
+	hdr := "From Coq Require Import List NArith Bool.\nImport ListNotations.\nRequire Import Verif.Cmds.Walk Verif.Cmds.Model Verif.Cmds.Run Verif.Gen.CmdGuards Verif.Base.Harness.\nLocal Open Scope N_scope.\n" +
+		"Definition EP := Build_endpoint.\nDefinition CL := Build_call.\nDefinition FD := Build_field.\nDefinition TY := Build_typ.\nDefinition AP := Build_app.\n"
+	ftr := "Definition M := Eval vm_compute in mismatches (c20_ok current) cases.\nPrint M.\n"
+	per := 16
+	if c.Thorough() {
+		per = 40
+	}
+	return &caseWriter{c: c, cs: c.NewCases("c20", hdr, "c20_case", ftr, per), rend: err == nil}
+}
+
+type interner struct {
+	ids map[string]int
+}
+
+func (in *interner) id(s string) string {
+	if v, ok := in.ids[s]; ok {
+		return fmt.Sprint(v)
+	}
+	v := len(in.ids) + 1
+	in.ids[s] = v
+	return fmt.Sprint(v)
+}
+func (in *interner) list(ss []string) string {
+	it := make([]string, len(ss))
+	for i, s := range ss {
+		it[i] = in.id(s)
+	}
+	return "[" + strings.Join(it, ";") + "]"
+}
+
+type jm = map[string]interface{}
+
+func gm(x interface{}, k string) jm {
+	if m, ok := x.(jm); ok {
+		if v, ok := m[k].(jm); ok {
+			return v
+		}
+	}
+	return nil
+}
+func gl(x interface{}, k string) []interface{} {
+	if m, ok := x.(jm); ok {
+		if v, ok := m[k].([]interface{}); ok {
+			return v
+		}
+	}
+	return nil
+}
+func gs(x interface{}, k string) string {
+	if m, ok := x.(jm); ok {
+		if v, ok := m[k].(string); ok {
+			return v
+		}
+	}
+	return ""
+}
+func strs(xs []interface{}) []string {
+	var out []string
+	for _, x := range xs {
+		if s, ok := x.(string); ok {
+			out = append(out, s)
+		}
+	}
+	return out
+}
+func sortedKeys(m jm) []string {
+	var ks []string
+	for k := range m {
+		ks = append(ks, k)
+	}
+	sort.Strings(ks)
+	return ks
+}
+
+// attribute list value: attrs[name].a.elt[*].s
+func attrList(attrs jm, name string) []string {
+	var out []string
+	for _, e := range gl(gm(gm(attrs, name), "a"), "elt") {
+		out = append(out, gs(e, "s"))
+	}
+	return out
+}
+func hasPattern(attrs jm, p string) bool {
+	for _, s := range attrList(attrs, "patterns") {
+		if s == p {
+			return true
+		}
+	}
+	return false
+}
+
+type pcall struct {
+	app, ep string
+	alt     bool
+}
+
+func flatten(stmts []interface{}, alt bool, calls *[]pcall, acts *[]string) {
+	for _, s := range stmts {
+		st, _ := s.(jm)
+		switch {
+		case st["call"] != nil:
+			c := gm(st, "call")
+			*calls = append(*calls, pcall{strings.Join(strs(gl(gm(c, "target"), "part")), " :: "), gs(c, "endpoint"), alt})
+		case st["action"] != nil:
+			*acts = append(*acts, gs(gm(st, "action"), "action"))
+		case st["cond"] != nil:
+			flatten(gl(gm(st, "cond"), "stmt"), alt, calls, acts)
+		case st["loop"] != nil:
+			flatten(gl(gm(st, "loop"), "stmt"), alt, calls, acts)
+		case st["loopN"] != nil:
+			flatten(gl(gm(st, "loopN"), "stmt"), alt, calls, acts)
+		case st["foreach"] != nil:
+			flatten(gl(gm(st, "foreach"), "stmt"), alt, calls, acts)
+		case st["group"] != nil:
+			flatten(gl(gm(st, "group"), "stmt"), alt, calls, acts)
+		case st["alt"] != nil:
+			for _, ch := range gl(gm(st, "alt"), "choice") {
+				flatten(gl(ch, "stmt"), true, calls, acts)
+			}
+		}
+	}
+}
+
+func projectModule(raw []byte, in *interner) (string, error) {
+	var mod jm
+	if err := json.Unmarshal(raw, &mod); err != nil {
+		return "", err
+	}
+	apps := gm(mod, "apps")
+	var appTerms []string
+	for _, an := range sortedKeys(apps) {
+		a := gm(apps, an)
+		var epTerms []string
+		eps := gm(a, "endpoints")
+		for _, en := range sortedKeys(eps) {
+			e := gm(eps, en)
+			var calls []pcall
+			var acts []string
+			flatten(gl(e, "stmt"), false, &calls, &acts)
+			ct := make([]string, len(calls))
+			for i, c := range calls {
+				ct[i] = fmt.Sprintf("CL %s %s %s", in.id(c.app), in.id(c.ep), common.GBool(c.alt))
+			}
+			attrs := gm(e, "attrs")
+			epTerms = append(epTerms, fmt.Sprintf("EP %s %d %s %s %s %s", in.id(en), len(strings.Split(en, " ")), common.GList(ct),
+				in.list(acts), in.list(attrList(attrs, "passthrough")), in.list(attrList(attrs, "exclude"))))
+		}
+		var tyTerms []string
+		types := gm(a, "types")
+		for _, tn := range sortedKeys(types) {
+			t := gm(types, tn)
+			rel := gm(t, "relation")
+			var fts []string
+			if rel != nil {
+				ad := gm(rel, "attrDefs")
+				for _, fn := range sortedKeys(ad) {
+					f := gm(ad, fn)
+					if tr := gm(f, "typeRef"); tr != nil {
+						fts = append(fts, fmt.Sprintf("FD %s (Some %s)", in.id(fn), in.list(strs(gl(gm(tr, "ref"), "path")))))
+					} else {
+						fts = append(fts, fmt.Sprintf("FD %s None", in.id(fn)))
+					}
+				}
+			}
+			tyTerms = append(tyTerms, fmt.Sprintf("TY %s %s %s", in.id(tn), common.GBool(rel != nil), common.GList(fts)))
+		}
+		appTerms = append(appTerms, fmt.Sprintf("AP %s %s %s %s", in.id(an), common.GBool(hasPattern(gm(a, "attrs"), "human")), common.GList(epTerms), common.GList(tyTerms)))
+	}
+	return common.GList(appTerms), nil
+}
+
+func flagVal(argv []string, names ...string) (string, bool) {
+	for i, a := range argv {
+		for _, n := range names {
+			if a == n && i+1 < len(argv) {
+				return argv[i+1], true
+			}
+		}
+	}
+	return "", false
+}
+func hasFlag(argv []string, names ...string) bool {
+	for _, a := range argv {
+		for _, n := range names {
+			if a == n {
+				return true
+			}
+		}
+	}
+	return false
+}
+
+// cmdTerm: the Cmds/Model.v command for a command line of the matrix ("" = not modelled)
+func cmdTerm(r *Run, in *interner) string {
+	av := r.Argv
+	opt := func(v string, ok bool) string {
+		if !ok {
+			return "None"
+		}
+		return "(Some " + in.id(v) + ")"
+	}
+	switch r.Class {
+	case "diagram-sequence":
+		a, okA := flagVal(av, "-a")
+		e, okE := flagVal(av, "-e")
+		if okA && okE {
+			return fmt.Sprintf("CMSeq %s %s", in.id(a), in.id(e))
+		}
+	case "diagram-integration":
+		a, ok := flagVal(av, "-a")
+		return "CMInt " + opt(a, ok)
+	case "ints", "ints-epa", "ints-clustered":
+		p, _ := flagVal(av, "-j")
+		ex := "[]"
+		if x, ok := flagVal(av, "-e"); ok {
+			ex = "[" + in.id(x) + "]"
+		}
+		return fmt.Sprintf("CInts %s %s", in.id(p), ex)
+	case "datamodel-direct":
+		o, _ := flagVal(av, "-o")
+		return "CDmDirect " + common.GBool(strings.Contains(o, "%(epname)"))
+	case "datamodel":
+		o, _ := flagVal(av, "-o")
+		p, _ := flagVal(av, "-j")
+		return fmt.Sprintf("CDmProject %s %s", in.id(p), common.GBool(strings.Contains(o, "%(epname)")))
+	case "export-swagger", "export-openapi2":
+		a, ok := flagVal(av, "-a")
+		return "CSwagger " + opt(a, ok)
+	case "generate-db-scripts":
+		a, _ := flagVal(av, "-a")
+		return "CDbCreate " + in.list(strings.Split(a, ","))
+	}
+	return ""
+}
+
+func (w *caseWriter) addModel(m *SModel, text string, runs []*Run, obs map[*Run]Obs) {
+	if len(runs) == 0 || runs[0].dir == "" {
+		return
+	}
+	// the matrix's `pb --mode json -o outK/m.json` run
+	var raw []byte
+	for _, r := range runs {
+		if r.Class == "pb" && hasFlag(r.Argv, "json") && !hasFlag(r.Argv, "--filter") && !hasFlag(r.Argv, "--split-apps") {
+			if o, ok := flagVal(r.Argv, "-o"); ok {
+				raw, _ = os.ReadFile(filepath.Join(r.dir, o))
+			}
+		}
+	}
+	if len(raw) == 0 {
+		w.c.Hist("projection:no-json")
+		return
+	}
+	in := &interner{ids: map[string]int{}}
+	mod, err := projectModule(raw, in)
+	if err != nil {
+		w.c.Hist("projection:bad-json")
+		return
+	}
+	var items []string
+	var lines []string
+	for _, r := range runs {
+		t := cmdTerm(r, in)
+		if t == "" {
+			continue
+		}
+		o := obs[r]
+		cls := "OErr"
+		switch {
+		case o.Crash || o.Timeout:
+			cls = "OCrash"
+		case o.RC == 0:
+			cls = "OOk"
+		}
+		items = append(items, fmt.Sprintf("(%s, %s)", t, cls))
+		lines = append(lines, strings.Join(r.Argv, " ")+" => "+cls)
+		w.c.Hist("modelled:" + strings.SplitN(t, " ", 2)[0])
+	}
+	w.cs.Add(fmt.Sprintf("(%s,\n   %s,\n   %s)", mod, common.GBool(w.rend), common.GList(items)),
+		map[string]interface{}{"shape": m.Shape, "sysl": text, "observed": lines})
+}
+
+func (w *caseWriter) close() { w.cs.Close() }
